@@ -86,6 +86,19 @@ use super::*;
 /*@*/         if k != (i as usize, j as usize) { assert(tp.contains_key(k)); assert(cell_done(k.0 as int, k.1 as int, i, j + 1)); }
 /*@*/     }
 /*@*/ }
+/*@*/ /// one step of the walk at cell (i, j) = (new_idx, old_idx): the neighbour the code moves to keeps the remaining lcs
+/*@*/ /// (tie-break of the code: not equal and cell(i, j + 1) >= cell(i + 1, j) => delete, else insert)
+/*@*/ proof fn lemma_walk <Old: Index<usize> + ?Sized, New: Index<usize> + ?Sized>(t: Map<(usize, usize), u32>, old: &Old, os: int, oe: int, new: &New, ns: int, ne: int, i: int, j: int) where New::Output: PartialEq<Old::Output>
+/*@*/   requires 0 <= i < ne - ns, 0 <= j < oe - os, tbl_lcs(t, old, os, oe, new, ns, ne)
+/*@*/   ensures
+/*@*/       eqv(old, os + j, new, ns + i) ==> lcs_len(old, os + j, oe, new, ns + i, ne) == 1 + lcs_len(old, os + j + 1, oe, new, ns + i + 1, ne),
+/*@*/       !eqv(old, os + j, new, ns + i) && tbl_val(t, i, j + 1) >= tbl_val(t, i + 1, j) ==> lcs_len(old, os + j, oe, new, ns + i, ne) == lcs_len(old, os + j + 1, oe, new, ns + i, ne),
+/*@*/       !eqv(old, os + j, new, ns + i) && tbl_val(t, i, j + 1) < tbl_val(t, i + 1, j) ==> lcs_len(old, os + j, oe, new, ns + i, ne) == lcs_len(old, os + j, oe, new, ns + i + 1, ne),
+/*@*/ {
+/*@*/     assert(cell_ok(t, old, os, oe, new, ns, ne, i, j + 1));
+/*@*/     assert(cell_ok(t, old, os, oe, new, ns, ne, i + 1, j));
+/*@*/     assert(os + (j + 1) == os + j + 1 && ns + (i + 1) == ns + i + 1);
+/*@*/ }
 fn make_table<Old, New>(
     old: &Old,
     old_range: Range<usize>,
@@ -133,6 +146,7 @@ where
         /*@*/         0 <= VERUS_ghost_iter.index@ <= old_len,
         /*@*/         tbl_upto(table@, old, old_range.start as int, old_range.end as int, new, new_range.start as int, new_range.end as int, i as int, old_len - VERUS_ghost_iter.index@),
         {
+            /*@*/ broadcast use {axiom_pure_index, axiom_pure_eq};
             let val = if new[new_range.start + i] == old[old_range.start + j] {
                 table.get(&(i + 1, j + 1)).unwrap_or(&0) + 1
             } else {
@@ -177,8 +191,10 @@ where
 /*@*/     ensures
 /*@*/         err_post(*vstd::prelude::old(d), *final(d), res),
 /*@*/         (*final(d)).fobs() == (*vstd::prelude::old(d)).fobs(),
+/*@*/         (*final(d)).config() == (*vstd::prelude::old(d)).config(),
 /*@*/         seg_post(*vstd::prelude::old(d), *final(d), old, old_range, new, new_range, alg_lvl(deadline), deadline is None, fin::<D>(), res.is_ok()),
 {
+    /*@*/ hide(seg_eqs); hide(lcs_len);   // C03 bookkeeping goes through lemmas only (keeps the queries small)
     /*@*/ broadcast use {axiom_pure_index, axiom_pure_eq};
     /*@*/ let ghost rel = rel_of(old, new); let ghost lvl = alg_lvl(deadline);
     /*@*/ let ghost o0 = old_range.start as int; let ghost n0 = new_range.start as int;
@@ -186,14 +202,18 @@ where
     /*@*/ let ghost d0 = *d; let ghost t0 = d.trace(); let ghost rs0 = d.rely_st(); let ghost r1 = d.rely_rel();
     /*@*/ let ghost mut s: Seq<Ev> = Seq::empty();
     /*@*/ let ghost mut oc: int = o0; let ghost mut nc: int = n0;
+    /*@*/ let ghost opt = deadline is None;      // C03: no deadline => the script is optimal
+    /*@*/ let ghost mut eqs: int = 0;            // number of items reported equal so far
     /*@*/ proof { lemma_seg_empty(rel, lvl, o0, n0); lemma_run_empty(r1, rs0); assert(t0 + s =~= t0); assert(alg_inv(*d, d0, t0, s, rel, lvl, rs0, o0, n0, oc, nc)); }
+    /*@*/ proof { assert(eqs == seg_eqs(rel, lvl, s, o0, n0, oc, nc)); }
     if is_empty_range(&new_range) {
         if !is_empty_range(&old_range) {
             /*@*/ proof { let e = Ev::Delete(old_range.start, (old_range.end - old_range.start) as usize, new_range.start);  if d0.relies() { pre_call(rel, r1, lvl, s, e, o0, n0, oc, nc, rs0); } }
             d.delete(old_range.start, old_range.len(), new_range.start)?;
             /*@*/ proof { let e = Ev::Delete(old_range.start, (old_range.end - old_range.start) as usize, new_range.start); post_call(rel, r1, lvl, s, e, o0, n0, oc, nc, rs0); assert((t0 + s).push(e) =~= t0 + s.push(e)); s = s.push(e); oc = oc + (old_range.end - old_range.start);
-            /*@*/     assert(alg_inv(*d, d0, t0, s, rel, lvl, rs0, o0, n0, oc, nc)); }
+            /*@*/     assert(alg_inv(*d, d0, t0, s, rel, lvl, rs0, o0, n0, oc, nc)); eqs = eqs + ev_eqs(e); assert(eqs == seg_eqs(rel, lvl, s, o0, n0, oc, nc));  }
         }
+        /*@*/ proof { lemma_lcs_empty(old, o0, oe0, new, n0, ne0); assert(opt ==> eqs == lcs_len(old, o0, oe0, new, n0, ne0)); }
         /*@*/ proof { assert(oc == oe0 && nc == ne0); assert(seg(old, new, lvl, s, o0, n0, oe0, ne0)); if d0.relies() { lemma_seg_any(rel, r1, lvl, s, o0, n0, oe0, ne0, rs0); } lemma_run_fin::<D>(r1, rs0, s); }
         d.finish()?;
         return Ok(());
@@ -201,7 +221,8 @@ where
         /*@*/ proof { let e = Ev::Insert(old_range.start, new_range.start, (new_range.end - new_range.start) as usize);  if d0.relies() { pre_call(rel, r1, lvl, s, e, o0, n0, oc, nc, rs0); } }
         d.insert(old_range.start, new_range.start, new_range.len())?;
         /*@*/ proof { let e = Ev::Insert(old_range.start, new_range.start, (new_range.end - new_range.start) as usize); post_call(rel, r1, lvl, s, e, o0, n0, oc, nc, rs0); assert((t0 + s).push(e) =~= t0 + s.push(e)); s = s.push(e); nc = nc + (new_range.end - new_range.start);
-        /*@*/     assert(alg_inv(*d, d0, t0, s, rel, lvl, rs0, o0, n0, oc, nc)); }
+        /*@*/     assert(alg_inv(*d, d0, t0, s, rel, lvl, rs0, o0, n0, oc, nc)); eqs = eqs + ev_eqs(e); assert(eqs == seg_eqs(rel, lvl, s, o0, n0, oc, nc));  }
+        /*@*/ proof { lemma_lcs_empty(old, o0, oe0, new, n0, ne0); assert(opt ==> eqs == lcs_len(old, o0, oe0, new, n0, ne0)); }
         /*@*/ proof { assert(oc == oe0 && nc == ne0); assert(seg(old, new, lvl, s, o0, n0, oe0, ne0)); if d0.relies() { lemma_seg_any(rel, r1, lvl, s, o0, n0, oe0, ne0, rs0); } lemma_run_fin::<D>(r1, rs0, s); }
         d.finish()?;
         return Ok(());
@@ -220,7 +241,8 @@ where
         /*@*/ proof { let e = Ev::Equal(old_range.start, new_range.start, (old_range.end - old_range.start) as usize);  if d0.relies() { pre_call(rel, r1, lvl, s, e, o0, n0, oc, nc, rs0); } }
         d.equal(old_range.start, new_range.start, old_range.len())?;
         /*@*/ proof { let e = Ev::Equal(old_range.start, new_range.start, (old_range.end - old_range.start) as usize); post_call(rel, r1, lvl, s, e, o0, n0, oc, nc, rs0); assert((t0 + s).push(e) =~= t0 + s.push(e)); s = s.push(e); oc = oc + (old_range.end - old_range.start); nc = nc + (old_range.end - old_range.start);
-        /*@*/     assert(alg_inv(*d, d0, t0, s, rel, lvl, rs0, o0, n0, oc, nc)); }
+        /*@*/     assert(alg_inv(*d, d0, t0, s, rel, lvl, rs0, o0, n0, oc, nc)); eqs = eqs + ev_eqs(e); assert(eqs == seg_eqs(rel, lvl, s, o0, n0, oc, nc));  }
+        /*@*/ proof { lemma_lcs_prefix(old, o0, oe0, new, n0, ne0, oe0 - o0); lemma_lcs_empty(old, oe0, oe0, new, ne0, ne0); assert(opt ==> eqs == lcs_len(old, o0, oe0, new, n0, ne0)); }
         /*@*/ proof { assert(oc == oe0 && nc == ne0); assert(seg(old, new, lvl, s, o0, n0, oe0, ne0)); if d0.relies() { lemma_seg_any(rel, r1, lvl, s, o0, n0, oe0, ne0, rs0); } lemma_run_fin::<D>(r1, rs0, s); }
         d.finish()?;
         return Ok(());
@@ -242,13 +264,13 @@ where
         /*@*/ proof { let e = Ev::Equal(old_range.start, new_range.start, common_prefix_len);  if d0.relies() { pre_call(rel, r1, lvl, s, e, o0, n0, oc, nc, rs0); } }
         d.equal(old_range.start, new_range.start, common_prefix_len)?;
         /*@*/ proof { let e = Ev::Equal(old_range.start, new_range.start, common_prefix_len); post_call(rel, r1, lvl, s, e, o0, n0, oc, nc, rs0); assert((t0 + s).push(e) =~= t0 + s.push(e)); s = s.push(e); oc = oc + common_prefix_len; nc = nc + common_prefix_len;
-        /*@*/     assert(alg_inv(*d, d0, t0, s, rel, lvl, rs0, o0, n0, oc, nc)); }
+        /*@*/     assert(alg_inv(*d, d0, t0, s, rel, lvl, rs0, o0, n0, oc, nc)); eqs = eqs + ev_eqs(e); assert(eqs == seg_eqs(rel, lvl, s, o0, n0, oc, nc));  }
     }
 
     if let Some(table) = maybe_table {
         while new_idx < new_len && old_idx < old_len
         /*@*/     invariant
-        /*@*/         alg_inv(*d, d0, t0, s, rel, lvl, rs0, o0, n0, oc, nc), (*d).fobs() == d0.fobs(),
+        /*@*/         alg_inv(*d, d0, t0, s, rel, lvl, rs0, o0, n0, oc, nc), (*d).fobs() == d0.fobs(), (*d).config() == d0.config(),
         /*@*/         box_pre(old, old_range, new, new_range), rely_pre(d0, old, old_range, new, new_range, lvl),
         /*@*/         rel == rel_of(old, new), lvl == alg_lvl(deadline), r1 == d0.rely_rel(), o0 == old_range.start, n0 == new_range.start,
         /*@*/         d0 == *vstd::prelude::old(d), rs0 == d0.rely_st(), t0 == d0.trace(), oe0 == old_range.end, ne0 == new_range.end,
@@ -256,9 +278,14 @@ where
         /*@*/         new_len == new_range.end - new_range.start - common_prefix_len - common_suffix_len,
         /*@*/         old_idx <= old_len, new_idx <= new_len,
         /*@*/         oc == old_range.start + common_prefix_len + old_idx, nc == new_range.start + common_prefix_len + new_idx,
+        /*@*/         // C03: the table is the LCS table of the inner box; what has been reported equal plus what the rest can still yield is constant
+        /*@*/         eqs == seg_eqs(rel, lvl, s, o0, n0, oc, nc),
+        /*@*/         tbl_lcs(table@, old, o0 + common_prefix_len, oe0 - common_suffix_len, new, n0 + common_prefix_len, ne0 - common_suffix_len),
+        /*@*/         eqs + lcs_len(old, oc, oe0 - common_suffix_len, new, nc, ne0 - common_suffix_len) == common_prefix_len + lcs_len(old, o0 + common_prefix_len, oe0 - common_suffix_len, new, n0 + common_prefix_len, ne0 - common_suffix_len),
         /*@*/     decreases (new_len - new_idx) + (old_len - old_idx),
         {
             /*@*/ broadcast use {axiom_pure_index, axiom_pure_eq};
+            /*@*/ proof { lemma_walk(table@, old, o0 + common_prefix_len, oe0 - common_suffix_len, new, n0 + common_prefix_len, ne0 - common_suffix_len, new_idx as int, old_idx as int); }
             let old_orig_idx = old_range.start + common_prefix_len + old_idx;
             let new_orig_idx = new_range.start + common_prefix_len + new_idx;
 
@@ -266,7 +293,7 @@ where
                 /*@*/ proof { let e = Ev::Equal(old_orig_idx, new_orig_idx, 1); assert(eqv(old, old_orig_idx as int, new, new_orig_idx as int)); assert(relk(rel, old_orig_idx as int, new_orig_idx as int, 0)); if d0.relies() { pre_call(rel, r1, lvl, s, e, o0, n0, oc, nc, rs0); } }
                 d.equal(old_orig_idx, new_orig_idx, 1)?;
                 /*@*/ proof { let e = Ev::Equal(old_orig_idx, new_orig_idx, 1); post_call(rel, r1, lvl, s, e, o0, n0, oc, nc, rs0); assert((t0 + s).push(e) =~= t0 + s.push(e)); s = s.push(e); oc = oc + 1; nc = nc + 1;
-                /*@*/     assert(alg_inv(*d, d0, t0, s, rel, lvl, rs0, o0, n0, oc, nc)); }
+                /*@*/     assert(alg_inv(*d, d0, t0, s, rel, lvl, rs0, o0, n0, oc, nc)); eqs = eqs + ev_eqs(e); assert(eqs == seg_eqs(rel, lvl, s, o0, n0, oc, nc));  }
                 old_idx += 1;
                 new_idx += 1;
             } else if table.get(&(new_idx, old_idx + 1)).unwrap_or(&0)
@@ -275,13 +302,13 @@ where
                 /*@*/ proof { let e = Ev::Delete(old_orig_idx, 1, new_orig_idx);  if d0.relies() { pre_call(rel, r1, lvl, s, e, o0, n0, oc, nc, rs0); } }
                 d.delete(old_orig_idx, 1, new_orig_idx)?;
                 /*@*/ proof { let e = Ev::Delete(old_orig_idx, 1, new_orig_idx); post_call(rel, r1, lvl, s, e, o0, n0, oc, nc, rs0); assert((t0 + s).push(e) =~= t0 + s.push(e)); s = s.push(e); oc = oc + 1;
-                /*@*/     assert(alg_inv(*d, d0, t0, s, rel, lvl, rs0, o0, n0, oc, nc)); }
+                /*@*/     assert(alg_inv(*d, d0, t0, s, rel, lvl, rs0, o0, n0, oc, nc)); eqs = eqs + ev_eqs(e); assert(eqs == seg_eqs(rel, lvl, s, o0, n0, oc, nc));  }
                 old_idx += 1;
             } else {
                 /*@*/ proof { let e = Ev::Insert(old_orig_idx, new_orig_idx, 1);  if d0.relies() { pre_call(rel, r1, lvl, s, e, o0, n0, oc, nc, rs0); } }
                 d.insert(old_orig_idx, new_orig_idx, 1)?;
                 /*@*/ proof { let e = Ev::Insert(old_orig_idx, new_orig_idx, 1); post_call(rel, r1, lvl, s, e, o0, n0, oc, nc, rs0); assert((t0 + s).push(e) =~= t0 + s.push(e)); s = s.push(e); nc = nc + 1;
-                /*@*/     assert(alg_inv(*d, d0, t0, s, rel, lvl, rs0, o0, n0, oc, nc)); }
+                /*@*/     assert(alg_inv(*d, d0, t0, s, rel, lvl, rs0, o0, n0, oc, nc)); eqs = eqs + ev_eqs(e); assert(eqs == seg_eqs(rel, lvl, s, o0, n0, oc, nc));  }
                 new_idx += 1;
             }
         }
@@ -289,6 +316,7 @@ where
     // without a table (deadline reached) the remaining items are deleted and
     // inserted by the code below.
 
+    /*@*/ proof { if opt { lemma_lcs_empty(old, oc, oe0 - common_suffix_len, new, nc, ne0 - common_suffix_len); } assert(opt ==> eqs == common_prefix_len + lcs_len(old, o0 + common_prefix_len, oe0 - common_suffix_len, new, n0 + common_prefix_len, ne0 - common_suffix_len)); }   // the walk has used up one side (no deadline: there was a table)
     if old_idx < old_len {
         /*@*/ proof { let e = Ev::Delete((old_range.start + common_prefix_len + old_idx) as usize, (old_len - old_idx) as usize, (new_range.start + common_prefix_len + new_idx) as usize);  if d0.relies() { pre_call(rel, r1, lvl, s, e, o0, n0, oc, nc, rs0); } }
         d.delete(
@@ -297,7 +325,7 @@ where
             new_range.start + common_prefix_len + new_idx,
         )?;
         /*@*/ proof { let e = Ev::Delete((old_range.start + common_prefix_len + old_idx) as usize, (old_len - old_idx) as usize, (new_range.start + common_prefix_len + new_idx) as usize); post_call(rel, r1, lvl, s, e, o0, n0, oc, nc, rs0); assert((t0 + s).push(e) =~= t0 + s.push(e)); s = s.push(e); oc = oc + (old_len - old_idx);
-        /*@*/     assert(alg_inv(*d, d0, t0, s, rel, lvl, rs0, o0, n0, oc, nc)); }
+        /*@*/     assert(alg_inv(*d, d0, t0, s, rel, lvl, rs0, o0, n0, oc, nc)); eqs = eqs + ev_eqs(e); assert(eqs == seg_eqs(rel, lvl, s, o0, n0, oc, nc));  }
         old_idx += old_len - old_idx;
     }
 
@@ -309,7 +337,7 @@ where
             new_len - new_idx,
         )?;
         /*@*/ proof { let e = Ev::Insert((old_range.start + common_prefix_len + old_idx) as usize, (new_range.start + common_prefix_len + new_idx) as usize, (new_len - new_idx) as usize); post_call(rel, r1, lvl, s, e, o0, n0, oc, nc, rs0); assert((t0 + s).push(e) =~= t0 + s.push(e)); s = s.push(e); nc = nc + (new_len - new_idx);
-        /*@*/     assert(alg_inv(*d, d0, t0, s, rel, lvl, rs0, o0, n0, oc, nc)); }
+        /*@*/     assert(alg_inv(*d, d0, t0, s, rel, lvl, rs0, o0, n0, oc, nc)); eqs = eqs + ev_eqs(e); assert(eqs == seg_eqs(rel, lvl, s, o0, n0, oc, nc));  }
     }
 
     if common_suffix_len > 0 {
@@ -320,9 +348,10 @@ where
             common_suffix_len,
         )?;
         /*@*/ proof { let e = Ev::Equal((old_range.start + old_len + common_prefix_len) as usize, (new_range.start + new_len + common_prefix_len) as usize, common_suffix_len); post_call(rel, r1, lvl, s, e, o0, n0, oc, nc, rs0); assert((t0 + s).push(e) =~= t0 + s.push(e)); s = s.push(e); oc = oc + common_suffix_len; nc = nc + common_suffix_len;
-        /*@*/     assert(alg_inv(*d, d0, t0, s, rel, lvl, rs0, o0, n0, oc, nc)); }
+        /*@*/     assert(alg_inv(*d, d0, t0, s, rel, lvl, rs0, o0, n0, oc, nc)); eqs = eqs + ev_eqs(e); assert(eqs == seg_eqs(rel, lvl, s, o0, n0, oc, nc));  }
     }
 
+    /*@*/ proof { if opt { lemma_lcs_strip(old, o0, oe0, new, n0, ne0, common_prefix_len as int, common_suffix_len as int); } assert(opt ==> eqs == lcs_len(old, o0, oe0, new, n0, ne0)); }
     /*@*/ proof { assert(oc == oe0 && nc == ne0); assert(seg(old, new, lvl, s, o0, n0, oe0, ne0)); if d0.relies() { lemma_seg_any(rel, r1, lvl, s, o0, n0, oe0, ne0, rs0); } lemma_run_fin::<D>(r1, rs0, s); }
     d.finish()
 }
@@ -346,6 +375,7 @@ where
 /*@*/     ensures
 /*@*/         err_post(*vstd::prelude::old(d), *final(d), res),
 /*@*/         (*final(d)).fobs() == (*vstd::prelude::old(d)).fobs(),
+/*@*/         (*final(d)).config() == (*vstd::prelude::old(d)).config(),
 /*@*/         seg_post(*vstd::prelude::old(d), *final(d), old, old_range, new, new_range, alg_lvl(None), true, fin::<D>(), res.is_ok()),
 {
     diff_deadline(d, old, old_range, new, new_range, None)
